@@ -8,7 +8,7 @@
      own replicated method, from AsyncResult.onResult and from the calling threads.
   3. TLC folds every event log into the specification's variables (ThreadsTrace.tla), compares the queue discipline and
      evaluates the C19 formulas after every event.  Real interleavings are sampled, not enumerated."""
-import os, sys, json, time, random, shutil, hashlib, threading, socket, concurrent.futures
+import os, sys, json, time, random, shutil, hashlib, threading, socket, collections, concurrent.futures
 
 from . import tlc, evidence, findings
 
@@ -54,7 +54,33 @@ def episode(ncallers, ncalls, qmax, seed, tiny_timeout_rate=0.15):
     orig_put, orig_get = fq.FastQueue.put_nowait, fq.FastQueue.get_nowait
     orig_init, orig_onres = so.AsyncResult.__init__, so.AsyncResult.onResult
 
+    racy = (seed % 3 == 0)      # one episode in three: the harness does NOT serialise the queue operations itself, and the
+                                # scheduler is made to switch threads inside them (a preemption is legal anywhere)
+
+    class YieldingDeque(collections.deque):
+        def __len__(self):
+            n = collections.deque.__len__(self)
+            if racy and threading.current_thread().name.startswith('caller'):
+                time.sleep(0.0003)
+            return n
+
+    def put_racy(self, value):
+        m = cmd_of(value)
+        try:
+            r = orig_put(self, value)
+            with LOCK:
+                if m:
+                    log({'ev': 'put', 'c': m[0], 'k': m[1], 'ok': True})
+            return r
+        except Exception:
+            with LOCK:
+                if m:
+                    log({'ev': 'put', 'c': m[0], 'k': m[1], 'ok': False})
+            raise
+
     def put(self, value):
+        if racy:
+            return put_racy(self, value)
         with LOCK:
             m = cmd_of(value)
             try:
@@ -99,6 +125,8 @@ def episode(ncallers, ncalls, qmax, seed, tiny_timeout_rate=0.15):
             return [c, k, self.n]
 
     fq.FastQueue.put_nowait, fq.FastQueue.get_nowait = put, get
+    orig_deque = fq.deque
+    fq.deque = YieldingDeque
     so.AsyncResult.__init__, so.AsyncResult.onResult = ar_init, ar_onres
     old_sw = sys.getswitchinterval()
     sys.setswitchinterval(1e-5)
@@ -133,7 +161,7 @@ def episode(ncallers, ncalls, qmax, seed, tiny_timeout_rate=0.15):
                         log({'ev': 'ret', 'c': c, 'k': k, 'kind': 'raise', 'reason': 'exc:' + type(e).__name__})
                 if rng.random() < 0.3:
                     time.sleep(rng.random() * 0.004)
-        ths = [threading.Thread(target=worker, args=(c,)) for c in callers]
+        ths = [threading.Thread(target=worker, args=(c,), name='caller-' + c) for c in callers]
         for t in ths:
             t.start()
         for t in ths:
@@ -142,10 +170,11 @@ def episode(ncallers, ncalls, qmax, seed, tiny_timeout_rate=0.15):
         time.sleep(0.15)
         with LOCK:
             evs = list(events)
-        return {'callers': callers, 'calls': ncalls, 'qmax': qmax, 'steps': evs}
+        return {'callers': callers, 'calls': ncalls, 'qmax': qmax, 'steps': evs, 'racy': racy}
     finally:
         sys.setswitchinterval(old_sw)
         fq.FastQueue.put_nowait, fq.FastQueue.get_nowait = orig_put, orig_get
+        fq.deque = orig_deque
         so.AsyncResult.__init__, so.AsyncResult.onResult = orig_init, orig_onres
         if o is not None:
             try:
@@ -178,13 +207,12 @@ def validate(traces, workdir, label):
             'viol': [tlc.parse_verdict_line(b) for b in v['VIOL']], 'drift': [tlc.parse_verdict_line(b) for b in v['DRIFT']]}
 
 
-def run(prop, tier, seed, out=print):
+def part(workdir, tier, seed, out=print):
+    """Threads.tla + stress episodes with real threads; returns what engine_core.run merges into the C19 check"""
     import multiprocessing
     t0 = time.time()
-    ev = evidence.Evidence(prop, tier, seed, 'model_checking')
-    workdir = tlc.scratch('verif_C19_')
     machinery, viols, drift = [], [], []
-    try:
+    if True:
         stats = []
         for q in (0, 1):
             cf = os.path.join(workdir, 'threads_q%d.cfg' % q)
@@ -231,43 +259,22 @@ def run(prop, tier, seed, out=print):
                 kinds[key] = kinds.get(key, 0) + 1
         out('  [code->spec] %d stress episodes with real threads (%d events) validated by TLC; drift: %d; formula failures: %d; events: %s'
             % (len(good), nev, len(drift), len(viols), json.dumps(kinds, sort_keys=True)))
-        ev.mc, ev.traces, ev.steps, ev.drift = stats, len(good), nev, drift
-        ev.distinct_actions = len(kinds)
-        ev.extra = {'event_kinds': kinds}
-        ev.sample_traces = [('episode', [json.dumps(good[0][1]['steps'][:12])])] if good else []
-        kf = findings.load()
-        reported, known, seen = [], {}, set()
-        for v in viols:
-            k = findings.match(kf, prop, v)
-            if k is not None:
-                known[k['id']] = k
-                continue
-            key = tuple(sorted(v['names']))
-            if key in seen:
-                continue
-            seen.add(key)
-            d = os.environ.get('VERIF_REPLAY_DIR') or os.path.join(tlc.ROOT, 'replays')
-            os.makedirs(d, exist_ok=True)
-            body = {'engine': 'threads', 'property': prop, 'formulas': v['names'], 'case': v['case']}
-            path = os.path.join(d, '%s-%s.json' % (prop, hashlib.sha1(json.dumps(body, sort_keys=True).encode()).hexdigest()[:10]))
-            json.dump(body, open(path, 'w'))
-            reported.append((v, path))
-        for d in drift[:6]:
-            out('MODEL-DRIFT property=%s step=%s fields=%s source=%s' % (prop, d.get('action'), d.get('fields'), d.get('source')))
-        ev.known, ev.violations, ev.machinery, ev.wall = sorted(known), len(reported), machinery, time.time() - t0
-        ev.write()
-        for v, path in reported[:4]:
-            out('VIOLATION property=%s replay=%s' % (prop, path))
-            out('  formula(s) %s false at event %d of episode %s' % (v['names'], v['step'], v['case']))
-        if reported:
-            return 1
-        if machinery:
-            for m in machinery[:4]:
-                out('MACHINERY-FAILURE: ' + m)
-            return 2
-        return 0
-    finally:
-        shutil.rmtree(workdir, ignore_errors=True)
+        return dict(stats=stats, viols=viols, drift=drift, machinery=machinery, episodes=len(good), events=nev, kinds=kinds,
+                    sample=[json.dumps(good[0][1]['steps'][:12])] if good else [])
+
+
+def run(prop, tier, seed, out=print):
+    from . import engine_core
+    return engine_core.run(prop, tier, seed, out)
+
+
+def write_replay(prop, v):
+    d = os.environ.get('VERIF_REPLAY_DIR') or os.path.join(tlc.ROOT, 'replays')
+    os.makedirs(d, exist_ok=True)
+    body = {'engine': 'threads', 'property': prop, 'formulas': v['names'], 'case': v['case']}
+    path = os.path.join(d, '%s-%s.json' % (prop, hashlib.sha1(json.dumps(body, sort_keys=True).encode()).hexdigest()[:10]))
+    json.dump(body, open(path, 'w'))
+    return path
 
 
 def replay(path, out=print):
